@@ -71,6 +71,8 @@ def generate(plan) -> None:
     k["p_drop_rp"] = 0.0 if fault_free else r.choice([0.1, 0.3, 0.6])
     k["fault_window_s"] = 0 if fault_free else r.choice([120, 900, 3600])
     k["split_rate"] = 0.0
+    # when the controller's first sync cycle is heard: while Gateway.start() is still under way (port open, not yet returned), or later
+    k["sync_first"] = r.choice([0.0, 0.004, 0.012, 0.03, 1.0, 1.0, 60.0])
     plan.d["ops"] = []
 
 
@@ -154,8 +156,13 @@ async def run(ctx) -> None:
     want_facts = facts(want)
     gwy = Gateway("/dev/sim0", config={"disable_discovery": False, "enforce_known_list": False,
                                       "max_zones": max(12, k("max_zones", 12))})
+    sf = k("sync_first", 1.0)
+    sync = loop.create_task(ctl.sync_cycle(185.0, first=sf)) if sf < 0.5 else None
     await gwy.start()
-    sync = loop.create_task(ctl.sync_cycle(185.0, first=1.0))
+    if sync is None:
+        sync = loop.create_task(ctl.sync_cycle(185.0, first=sf))
+    else:
+        ctx.probe("controller_first_heard_during_start")
     horizon = k("hours", 49) * 3600.0
     seen: set = set()
     t_learned: dict = {}
